@@ -55,7 +55,7 @@ class RelativeImport(Import):
 
         self._importee = self._calculate_importee()
 
-        self._importee_module_hierarchy = get_parent_modules(self._module_name)  # type: ignore
+        self._importee_module_hierarchy = get_parent_modules(self._importee)
 
     def importee(self) -> str:
         return self._importee
